@@ -135,26 +135,79 @@ def wrap_filter(cmp, base_text):
     return 'strict' if upper < -1 else 'loose'
 
 
-def sanitizer_of(mask, base_text):
-    """True when `mask` is a boolean mask selecting the entries of `base_text` that are not the NOSITE marker."""
-    if mask is None:
+def _is_nosite(v):
+    return v is not None and (bool(v.nosite_marker) or v.gname == 'gemdat.transitions.NOSITE' or (has_const(v) and cval(v) == -1))
+
+
+def _mask_meaning(mask, depth=6):
+    """What a boolean mask says about NOSITE: (kind, base text, columns) with kind 'E' = true where the entry is a real site
+    (element-wise), 'D' = true where it is the NOSITE marker, 'R' = true for rows whose entries are all real sites,
+    'X' = true for rows that contain the marker. columns: None = every element of the compared array, else the set of
+    column numbers (of the table named by base text) that were tested."""
+    if mask is None or depth <= 0:
+        return None
+    if mask.inv_of is not None:
+        m = _mask_meaning(mask.inv_of, depth - 1)
+        if m is None:
+            return None
+        return ({'E': 'D', 'D': 'E', 'R': 'X', 'X': 'R'}[m[0]],) + m[1:]
+    if mask.red is not None and mask.red[0] in ('all', 'any') and mask.red[1] is not None and mask.cmp is None:
+        m = _mask_meaning(mask.red[1], depth - 1)
+        if m is None or m[2] is not None:
+            return None
+        if mask.red[0] == 'all' and m[0] == 'E':
+            return ('R', m[1], None)
+        if mask.red[0] == 'any' and m[0] == 'D':
+            return ('X', m[1], None)
+        return None
+    if mask.cmp is not None:
+        o, l, r, lt, rt = mask.cmp
+        if _is_nosite(l) and not _is_nosite(r):
+            o, l, r, lt, rt = {'<': '>', '<=': '>=', '>': '<', '>=': '<='}.get(o, o), r, l, rt, lt
+        kind = None
+        if _is_nosite(r):
+            kind = 'E' if o in ('!=', '>') else ('D' if o == '==' else None)
+        elif has_const(r) and cval(r) == 0 and o == '>=':
+            kind = 'E'
+        elif has_const(r) and cval(r) == 0 and o == '<':
+            kind = 'D'
+        if kind is None:
+            return None
+        if l is not None and l.colsel is not None:
+            return (kind, l.colsel[0], frozenset([l.colsel[1]]))
+        return (kind, lt, None)
+    if mask.bin is not None and mask.bin[0] in ('&', '|'):
+        a, b = _mask_meaning(mask.bin[1], depth - 1), _mask_meaning(mask.bin[2], depth - 1)
+        if a is None or b is None or a[1] != b[1]:
+            return None
+        op = mask.bin[0]
+        if op == '&' and a[0] == b[0] and a[0] in ('E', 'R'):
+            cols = None if (a[2] is None and b[2] is None) else ((a[2] or frozenset()) | (b[2] or frozenset()) if a[2] is not None and b[2] is not None else (a[2] or b[2]))
+            return (a[0], a[1], cols)
+        if op == '|' and a[0] == b[0] and a[0] in ('D', 'X'):
+            cols = None if (a[2] is None and b[2] is None) else ((a[2] or frozenset()) | (b[2] or frozenset()) if a[2] is not None and b[2] is not None else (a[2] or b[2]))
+            return (a[0], a[1], cols)
+        return None
+    if mask.cmp_src is not None:
+        return _mask_meaning(AV(cmp=mask.cmp_src), depth - 1)
+    return None
+
+
+def sanitizer_of(mask, base_text, base=None):
+    """True when `mask` is a boolean mask selecting the entries / rows of `base_text` that do not hold the NOSITE marker."""
+    m = _mask_meaning(mask)
+    if m is None:
         return False
-    c = mask.cmp
-    if c is None and mask.red is not None and mask.red[0] in ('all',) and mask.red[1] is not None:
-        c = mask.red[1].cmp
-    if c is None and mask.cmp_src is not None:
-        c = mask.cmp_src
-    if c is None:
+    kind, text, cols = m
+    if base_text is not None and text != base_text:
         return False
-    o, l, r, lt, rt = c
-    if base_text is not None and lt != base_text:
-        return False
-    if o == '!=' and (r.nosite_marker or (has_const(r) and cval(r) == -1)):
-        return True
-    if o == '>=' and has_const(r) and cval(r) == 0:
-        return True
-    if o == '>' and has_const(r) and cval(r) == -1:
-        return True
+    if kind == 'R':
+        return cols is None
+    if kind == 'E':
+        if cols is None:
+            return True
+        ncols = len(base.colvals) if (base is not None and base.colvals is not None) else None
+        return ncols is not None and cols == frozenset(range(ncols))
     return False
 
 
@@ -800,7 +853,8 @@ class NumpyModel:
 
         if base.colvals is not None and len(items) >= 2:
             got = _pick(base.colvals, items[-1]) if (len(items) == 2 and _full(items[0])) else None
-            out = _as_column(out, got) if isinstance(got, AV) else out.w(colvals=got)
+            out = _as_column(out, got).w(colsel=(interp.sx(node.value), cval(items[-1]))) if (isinstance(got, AV) and isinstance(node, ast.Subscript)) else (
+                _as_column(out, got) if isinstance(got, AV) else out.w(colvals=got))
         if base.rows is not None and items and all(_full(i) for i in items[1:]):
             got = _pick(base.rows, items[0])
             if isinstance(got, AV):
@@ -860,7 +914,7 @@ class NumpyModel:
         # NOSITE sanitiser: x[(x != NOSITE)...] / x[x >= 0]
         btext = interp.sx(node.value) if isinstance(node, ast.Subscript) else None
         for it in items:
-            if sanitizer_of(it, btext):
+            if sanitizer_of(it, btext, base):
                 if out.idx is not None and out.idx[0] == 'SITE':
                     out = out.w(idx=('SITE', False), sanitized_by=True)
                 if out.colvals:
